@@ -124,12 +124,12 @@ def worker_source(c):
     raise ValueError(k)
 
 
-def run_program(prog, chooser, seed, line_budget=0, cut_w2i=None, remote_backend="thread"):
+def run_program(prog, chooser, seed, line_budget=0, cut_w2i=None, remote_backend="thread", io_kind="popen"):
     """returns observations per conversation + gateway-level facts"""
     from execnet.gateway_base import RemoteError
 
     sc = S.Sched(chooser, line_budget=line_budget, max_steps=400000)
-    pr = P.Pair(sc, remote_backend=remote_backend, seed=seed, cut_w2i=cut_w2i)
+    pr = P.Pair(sc, remote_backend=remote_backend, seed=seed, cut_w2i=cut_w2i, io_kind=io_kind)
     pr.worker_notes = []
     P.CURRENT = pr
     gw = pr.gw
@@ -165,6 +165,8 @@ def run_program(prog, chooser, seed, line_budget=0, cut_w2i=None, remote_backend
                 except RemoteError as e:
                     o["waitclose"] = "RemoteError"
                     o["errtext"] = str(e)
+                except EOFError:
+                    o["waitclose"] = "EOFError"   # connection lost; queued items are still receivable
             if mode in ("receive", "two_receivers", "waitclose_then_receive"):
                 while 1:
                     o["got"].append(ch.receive(timeout=20))
@@ -347,7 +349,8 @@ def run_program(prog, chooser, seed, line_budget=0, cut_w2i=None, remote_backend
         final["worker_channels_left"] = sorted(pr.worker._channelfactory._channels.keys())
         final["worker_callbacks_left"] = sorted(pr.worker._channelfactory._callbacks.keys())
         if cut_w2i is not None:
-            for name, f in (("send", lambda: gw.newchannel), ("newchannel", lambda: gw.newchannel()), ("remote_exec", lambda: gw.remote_exec("pass"))):
+            final["error_recorded"] = type(getattr(gw, "_error", None)).__name__
+            for name, f in (("send", lambda: spare.send(1)), ("newchannel", lambda: gw.newchannel()), ("remote_exec", lambda: gw.remote_exec("pass"))):
                 try:
                     f()
                     final["after_loss_" + name] = "accepted"
@@ -357,6 +360,7 @@ def run_program(prog, chooser, seed, line_budget=0, cut_w2i=None, remote_backend
                     final["after_loss_" + name] = type(e).__name__
         sc.stop()
 
+    spare = gw.newchannel() if cut_w2i is not None else None
     for i, c in enumerate(prog):
         sc.spawn(user, (i, c), name=f"user{i}")
     sc.spawn(controller, name="controller")
